@@ -1,5 +1,15 @@
 //! C17 — RFC 1982 serial arithmetic: flat exhaustive sweep.
 //! For each base b: all 2^32 values c.
+//!
+//! Besides the sweep of `Serial` / `Timestamp` themselves the check drives the places of the library that
+//! DECIDE something from two serials or two signature times, each over a menu of pairs on both sides of 0,
+//! 2^31 and 2^32 and judged by the RFC 1982 reference below (never by the library's own comparison):
+//! zone-diff direction, the IXFR interpreter and the zone updater, the serial-bumping commit, signature
+//! times in text form, the stream client's "is a first message holding only the SOA the whole IXFR answer"
+//! decision (mock peer on an in-memory connection, tokio's paused clock), the XFR sender's "client is up to
+//! date" decision (real XfrMiddlewareSvc), the signer's validity-period check, the cookie validity window of
+//! the new base and the serial type of the new base (`new::base::Serial`).
+//! `C17_SITES_ONLY=1` runs only those parts (development aid, writes no evidence).
 use domain::base::Serial;
 use domain::rdata::dnssec::Timestamp;
 use mc::*;
@@ -301,7 +311,7 @@ enum StreamEnd {
     Finished,
     /// the transport reported a failure
     Failed,
-    /// neither within 60 s of virtual time
+    /// neither within 5 s of virtual time although the peer has sent all it is going to send
     Hang,
 }
 
@@ -323,8 +333,11 @@ async fn stream_client_exchange(client: u32, msgs: Vec<Vec<u8>>) -> Result<(Vec<
     let req = RequestMessageMulti::new(a.into_message()).map_err(|_| "harness: RequestMessageMulti::new refused the IXFR request".to_string())?;
     let (cli, mut srv) = tokio::io::duplex(1 << 16);
     let mut cfg = stream::Config::new();
-    cfg.set_response_timeout(std::time::Duration::from_secs(2));
-    cfg.set_idle_timeout(std::time::Duration::from_secs(1));
+    // (the transport's own timers lie far behind the bound of the harness: the messages of the peer arrive without
+    // any time passing, so whatever the transport decides it decides at virtual time 0; the harness gives every
+    // step 5 s of virtual time and never lets the clock reach a timer of the transport)
+    cfg.set_response_timeout(std::time::Duration::from_secs(120));
+    cfg.set_idle_timeout(std::time::Duration::from_secs(120));
     let (conn, transport) = stream::Connection::<RequestMessage<Vec<u8>>, RequestMessageMulti<Vec<u8>>>::with_config(cli, cfg);
     let tr = tokio::spawn(transport.run());
     let sv = tokio::spawn(async move {
@@ -350,7 +363,7 @@ async fn stream_client_exchange(client: u32, msgs: Vec<Vec<u8>>) -> Result<(Vec<
     let mut got = Vec::new();
     let mut get = conn.send_request(req);
     let end = loop {
-        match tokio::time::timeout(std::time::Duration::from_secs(60), get.get_response()).await {
+        match tokio::time::timeout(std::time::Duration::from_secs(5), get.get_response()).await {
             Err(_) => break StreamEnd::Hang,
             Ok(Err(_)) => break StreamEnd::Failed,
             Ok(Ok(None)) => break StreamEnd::Finished,
@@ -395,95 +408,91 @@ fn stream_client_case(ctx: &Ctx, client: u32, server: u32, one_per_message: bool
     use domain::base::MessageBuilder;
     use mc::zfix::*;
     let want = newer(client, server);
-    {
-        {
-            let case = || json!({"part": "stream-client-lone-soa", "client_serial": client, "server_serial": server, "one_record_per_message": one_per_message, "later_messages_repeat_the_question": repeat_question});
-            let message = |with_question: bool, recs: &[domain::zonetree::types::StoredRecord]| -> Vec<u8> {
-                let mut qb = MessageBuilder::new_vec().question();
-                qb.header_mut().set_qr(true);
-                qb.header_mut().set_aa(true);
-                if with_question {
-                    qb.push((zone_apex(), Rtype::IXFR, Class::IN)).unwrap();
-                }
-                let mut ab = qb.answer();
-                for r in recs {
-                    ab.push(r.clone()).unwrap();
-                }
-                ab.finish()
-            };
-            let soa = |s: u32| record_of(&vec![], &Rd::Soa(s));
-            let a = |k: u8| record_of(&rel("a"), &Rd::A(k));
-            // SOA(server) | SOA(client) -A SOA(server) +A SOA(server)
-            let rest = [soa(client), a(10), soa(server), a(11), soa(server)];
-            let mut all = vec![message(true, &[soa(server)])];
-            if one_per_message {
-                for r in &rest {
-                    all.push(message(repeat_question, std::slice::from_ref(r)));
-                }
-            } else {
-                all.push(message(repeat_question, &rest));
-            }
-            // a server that has nothing newer sends its SOA and nothing else
-            let sent: Vec<Vec<u8>> = if want == Some(false) { all[..1].to_vec() } else { all.clone() };
-            let r = guard(|| paused_rt().block_on(stream_client_exchange(client, sent.clone())));
-            let (got, end) = match r {
-                Err(p) => {
-                    ctx.violation(&format!("C17|stream-client-ixfr|panic|{}", panic_class(&p)), &p, case());
-                    return;
-                }
-                Ok(Err(e)) => {
-                    eprintln!("MACHINERY: {e}");
-                    std::process::exit(2);
-                }
-                Ok(Ok(x)) => x,
-            };
-            let same = |k: usize| got.len() == k && (0..k).all(|i| got[i].len() >= 2 && got[i][2..] == sent[i][2..]);
-            let whole = same(sent.len()) && end == StreamEnd::Finished;
-            let first_only = same(1) && end == StreamEnd::Finished;
-            let ok = match want {
-                Some(true) => whole,
-                Some(false) => first_only,
-                None => whole || first_only,
-            };
-            if ok {
-                return;
-            }
-            let server_is = match want {
-                Some(true) => "newer",
-                Some(false) => "not-newer",
-                None => "2^31-apart",
-            };
-            let observed = if first_only {
-                "response-declared-complete-after-the-first-message".to_string()
-            } else if same(got.len().min(sent.len())) && got.len() <= sent.len() {
-                format!(
-                    "{}-after-{}",
-                    match end {
-                        StreamEnd::Finished => "end",
-                        StreamEnd::Failed => "failure",
-                        StreamEnd::Hang => "hang",
-                    },
-                    if got.len() == sent.len() { "all-messages" } else if got.len() == 1 { "the-first-message" } else { "some-messages" }
-                )
-            } else {
-                "messages-delivered-are-not-the-messages-sent".to_string()
-            };
-            ctx.violation(
-                &format!("C17|stream-client-ixfr|first-message-holds-only-the-soa|server-{server_is}|{observed}|{}", order_class(client, server)),
-                &format!(
-                    "IXFR request with serial {client}, server at serial {server} (RFC 1982: server newer = {want:?}); the peer sent {} message(s), the first holding only its SOA, and kept the connection open; the caller got {} message(s), then {end:?}; expected {}",
-                    sent.len(),
-                    got.len(),
-                    match want {
-                        Some(true) => "all messages, then the end of the response",
-                        Some(false) => "the one message, then the end of the response without waiting for more",
-                        None => "either of the two",
-                    }
-                ),
-                case(),
-            );
+    let case = || json!({"part": "stream-client-lone-soa", "client_serial": client, "server_serial": server, "one_record_per_message": one_per_message, "later_messages_repeat_the_question": repeat_question});
+    let message = |with_question: bool, recs: &[domain::zonetree::types::StoredRecord]| -> Vec<u8> {
+        let mut qb = MessageBuilder::new_vec().question();
+        qb.header_mut().set_qr(true);
+        qb.header_mut().set_aa(true);
+        if with_question {
+            qb.push((zone_apex(), Rtype::IXFR, Class::IN)).unwrap();
         }
+        let mut ab = qb.answer();
+        for r in recs {
+            ab.push(r.clone()).unwrap();
+        }
+        ab.finish()
+    };
+    let soa = |s: u32| record_of(&vec![], &Rd::Soa(s));
+    let a = |k: u8| record_of(&rel("a"), &Rd::A(k));
+    // SOA(server) | SOA(client) -A SOA(server) +A SOA(server)
+    let rest = [soa(client), a(10), soa(server), a(11), soa(server)];
+    let mut all = vec![message(true, &[soa(server)])];
+    if one_per_message {
+        for r in &rest {
+            all.push(message(repeat_question, std::slice::from_ref(r)));
+        }
+    } else {
+        all.push(message(repeat_question, &rest));
     }
+    // a server that has nothing newer sends its SOA and nothing else
+    let sent: Vec<Vec<u8>> = if want == Some(false) { all[..1].to_vec() } else { all.clone() };
+    let r = guard(|| paused_rt().block_on(stream_client_exchange(client, sent.clone())));
+    let (got, end) = match r {
+        Err(p) => {
+            ctx.violation(&format!("C17|stream-client-ixfr|panic|{}", panic_class(&p)), &p, case());
+            return;
+        }
+        Ok(Err(e)) => {
+            eprintln!("MACHINERY: {e}");
+            std::process::exit(2);
+        }
+        Ok(Ok(x)) => x,
+    };
+    let same = |k: usize| got.len() == k && (0..k).all(|i| got[i].len() >= 2 && got[i][2..] == sent[i][2..]);
+    let whole = same(sent.len()) && end == StreamEnd::Finished;
+    let first_only = same(1) && end == StreamEnd::Finished;
+    let ok = match want {
+        Some(true) => whole,
+        Some(false) => first_only,
+        None => whole || first_only,
+    };
+    if ok {
+        return;
+    }
+    let server_is = match want {
+        Some(true) => "newer",
+        Some(false) => "not-newer",
+        None => "2^31-apart",
+    };
+    let observed = if first_only {
+        "response-declared-complete-after-the-first-message".to_string()
+    } else if same(got.len().min(sent.len())) && got.len() <= sent.len() {
+        format!(
+            "{}-after-{}",
+            match end {
+                StreamEnd::Finished => "end",
+                StreamEnd::Failed => "failure",
+                StreamEnd::Hang => "waiting",
+            },
+            if got.len() == 1 { "the-first-message" } else if got.len() == sent.len() { "all-messages" } else { "some-messages" }
+        )
+    } else {
+        "messages-delivered-are-not-the-messages-sent".to_string()
+    };
+    ctx.violation(
+        &format!("C17|stream-client-ixfr|first-message-holds-only-the-soa|server-{server_is}|{observed}|{}", order_class(client, server)),
+        &format!(
+            "IXFR request with serial {client}, server at serial {server} (RFC 1982: server newer = {want:?}); the peer sent {} message(s), the first holding only its SOA, and kept the connection open; the caller got {} message(s), then {end:?}; expected {}",
+            sent.len(),
+            got.len(),
+            match want {
+                Some(true) => "all messages, then the end of the response",
+                Some(false) => "the one message, then the end of the response without waiting for more",
+                None => "either of the two",
+            }
+        ),
+        case(),
+    );
 }
 
 mod xfr_site {
@@ -557,124 +566,124 @@ fn xfr_server_case(ctx: &Ctx, client: u32, server: u32, udp: bool) {
     let want = newer(client, server);
     // the server's history: one step, from the client's version if that is older, else from the version before
     let start = if want == Some(true) { client } else { server.wrapping_sub(1) };
-    {
-        {
-            let case = || json!({"part": "xfr-server-ixfr", "client_serial": client, "server_serial": server, "history_from": start, "udp": udp});
-            let r = guard(|| {
-                paused_rt().block_on(async {
-                    let mut c = Content::base(start);
-                    c.add("a", Rd::A(10));
-                    let zone = build_direct(&c, false);
-                    let diff = {
-                        let mut w = zone.write().await;
-                        let apex = w.open(true).await.map_err(|e| ("harness".to_string(), format!("open: {e}")))?;
-                        let node = node_for(apex.as_ref(), &rel("a")).await.unwrap();
-                        node.update_rrset(rrset_of(&[Rd::A(11)])).await.map_err(|e| ("harness".to_string(), format!("update_rrset: {e}")))?;
-                        apex.update_rrset(rrset_of(&[Rd::Soa(server)])).await.map_err(|e| ("harness".to_string(), format!("update_rrset(soa): {e}")))?;
-                        drop(node);
-                        drop(apex);
-                        w.commit(false).await.map_err(|e| ("harness".to_string(), format!("commit: {e}")))?
-                    };
-                    let Some(diff) = diff else {
-                        return Err(("no-diff-from-a-commit-to-a-newer-serial".to_string(), format!("the commit from serial {start} to serial {server} made no diff")));
-                    };
-                    let svc = XfrMiddlewareSvc::<Vec<u8>, xfr_site::NoSvc, (), xfr_site::Provider>::new(xfr_site::NoSvc, xfr_site::Provider { zone, diffs: vec![Arc::new(diff)] }, 1);
-                    let mut q = MessageBuilder::new_vec().question();
-                    q.header_mut().set_id(0x4242);
-                    q.push((zone_apex(), Rtype::IXFR)).unwrap();
-                    let mut a = q.authority();
-                    a.push(record_of(&vec![], &Rd::Soa(client))).unwrap();
-                    let tctx: TransportSpecificContext = if udp { UdpTransportContext::new(None).into() } else { NonUdpTransportContext::new(None).into() };
-                    let request = Request::new("192.0.2.1:5300".parse().unwrap(), tokio::time::Instant::now(), a.into_message(), tctx, ());
-                    let mut msgs: Vec<Vec<u8>> = Vec::new();
-                    let collect = async {
-                        let mut stream = svc.call(request).await;
-                        while let Some(item) = stream.next().await {
-                            match item {
-                                Ok(cr) => {
-                                    if let (Some(r), _) = cr.into_inner() {
-                                        msgs.push(r.finish().as_dgram_slice().to_vec());
-                                    }
-                                }
-                                Err(_) => return Err(("service-error".to_string(), "the response stream yielded a service error".to_string())),
+    let case = || json!({"part": "xfr-server-ixfr", "client_serial": client, "server_serial": server, "history_from": start, "udp": udp});
+    let r = guard(|| {
+        paused_rt().block_on(async {
+            let mut c = Content::base(start);
+            c.add("a", Rd::A(10));
+            let zone = build_direct(&c, false);
+            let diff = {
+                let mut w = zone.write().await;
+                let apex = w.open(true).await.map_err(|e| ("harness".to_string(), format!("open: {e}")))?;
+                let node = node_for(apex.as_ref(), &rel("a")).await.unwrap();
+                node.update_rrset(rrset_of(&[Rd::A(11)])).await.map_err(|e| ("harness".to_string(), format!("update_rrset: {e}")))?;
+                apex.update_rrset(rrset_of(&[Rd::Soa(server)])).await.map_err(|e| ("harness".to_string(), format!("update_rrset(soa): {e}")))?;
+                drop(node);
+                drop(apex);
+                w.commit(false).await.map_err(|e| ("harness".to_string(), format!("commit: {e}")))?
+            };
+            let Some(diff) = diff else {
+                return Err(("no-diff-from-a-commit-to-a-newer-serial".to_string(), format!("the commit from serial {start} to serial {server} made no diff")));
+            };
+            let svc = XfrMiddlewareSvc::<Vec<u8>, xfr_site::NoSvc, (), xfr_site::Provider>::new(xfr_site::NoSvc, xfr_site::Provider { zone, diffs: vec![Arc::new(diff)] }, 1);
+            let mut q = MessageBuilder::new_vec().question();
+            q.header_mut().set_id(0x4242);
+            q.push((zone_apex(), Rtype::IXFR)).unwrap();
+            let mut a = q.authority();
+            a.push(record_of(&vec![], &Rd::Soa(client))).unwrap();
+            let tctx: TransportSpecificContext = if udp { UdpTransportContext::new(None).into() } else { NonUdpTransportContext::new(None).into() };
+            let request = Request::new("192.0.2.1:5300".parse().unwrap(), tokio::time::Instant::now(), a.into_message(), tctx, ());
+            let mut msgs: Vec<Vec<u8>> = Vec::new();
+            let collect = async {
+                let mut stream = svc.call(request).await;
+                while let Some(item) = stream.next().await {
+                    match item {
+                        Ok(cr) => {
+                            if let (Some(r), _) = cr.into_inner() {
+                                msgs.push(r.finish().as_dgram_slice().to_vec());
                             }
                         }
-                        Ok(())
-                    };
-                    match tokio::time::timeout(std::time::Duration::from_secs(30), collect).await {
-                        Err(_) => return Err(("response-stream-never-ends".to_string(), "no end of the response stream within 30 s of virtual time".to_string())),
-                        Ok(r) => r?,
+                        Err(_) => return Err(("service-error".to_string(), "the response stream yielded a service error".to_string())),
                     }
-                    Ok::<_, (String, String)>(msgs)
-                })
-            });
-            let server_is = match want {
-                Some(true) => "newer",
-                Some(false) => "not-newer",
-                None => "2^31-apart",
+                }
+                Ok(())
             };
-            let msgs = match r {
-                Err(p) => {
-                    ctx.violation(&format!("C17|xfr-server-ixfr|panic|{}", panic_class(&p)), &p, case());
-                    return;
-                }
-                Ok(Err((kind, what))) if kind == "harness" => {
-                    eprintln!("MACHINERY: xfr-server part: {what}");
-                    std::process::exit(2);
-                }
-                Ok(Err((kind, what))) => {
-                    ctx.violation(&format!("C17|xfr-server-ixfr|{kind}|server-{server_is}|{}", order_class(client, server)), &format!("{what} [client serial {client}, server serial {server}]"), case());
-                    return;
-                }
-                Ok(Ok(m)) => m,
-            };
-            // read the response with the independent reader
-            let mut answer: Vec<(u16, Option<u32>)> = Vec::new();
-            let mut bad: Option<String> = None;
-            for m in &msgs {
-                match mc::wire::read_message(m) {
-                    Ok(raw) => {
-                        if raw.flags & 0x000F != 0 {
-                            bad = Some(format!("error-response-rcode-{}", raw.flags & 0x000F));
-                        }
-                        for rec in &raw.sections[0] {
-                            answer.push((rec.rtype, if rec.rtype == 6 { soa_serial_of(&rec.rdata) } else { None }));
-                        }
-                    }
-                    Err(_) => bad = Some("unreadable-message".into()),
-                }
+            match tokio::time::timeout(std::time::Duration::from_secs(30), collect).await {
+                Err(_) => return Err(("response-stream-never-ends".to_string(), "no end of the response stream within 30 s of virtual time".to_string())),
+                Ok(r) => r?,
             }
-            let is_server_soa = |x: Option<&(u16, Option<u32>)>| x == Some(&(6u16, Some(server)));
-            let lone_soa = answer.len() == 1 && is_server_soa(answer.first());
-            let framed = answer.len() >= 3 && is_server_soa(answer.first()) && is_server_soa(answer.last());
-            let incremental = framed && answer[1].0 == 6;
-            let observed = match &bad {
-                Some(b) => b.clone(),
-                None if lone_soa => "single-soa".into(),
-                None if incremental => "difference-sequences".into(),
-                None if framed => "entire-zone".into(),
-                None => "neither-a-single-soa-nor-a-transfer-framed-by-the-server-soa".into(),
-            };
-            let ok = bad.is_none()
-                && match want {
-                    // the client has nothing to fetch: the single SOA (or, where a server cannot tell, the entire zone), never differences
-                    Some(false) => lone_soa || (framed && !incremental),
-                    Some(true) => framed,
-                    None => lone_soa || framed,
-                };
-            if !ok {
-                ctx.violation(
-                    &format!("C17|xfr-server-ixfr|server-{server_is}|answered-with-{observed}|{}", order_class(client, server)),
-                    &format!(
-                        "IXFR request with serial {client} to a server at serial {server} holding the difference {start} -> {server} (RFC 1982: server newer = {want:?}) over {}: {} message(s), answer records (type, SOA serial) {:?}",
-                        if udp { "UDP" } else { "TCP" },
-                        msgs.len(),
-                        answer
-                    ),
-                    case(),
-                );
-            }
+            Ok::<_, (String, String)>(msgs)
+        })
+    });
+    let server_is = match want {
+        Some(true) => "newer",
+        Some(false) => "not-newer",
+        None => "2^31-apart",
+    };
+    let msgs = match r {
+        Err(p) => {
+            ctx.violation(&format!("C17|xfr-server-ixfr|panic|{}", panic_class(&p)), &p, case());
+            return;
         }
+        Ok(Err((kind, what))) if kind == "harness" => {
+            eprintln!("MACHINERY: xfr-server part: {what}");
+            std::process::exit(2);
+        }
+        Ok(Err((kind, what))) => {
+            if kind.starts_with("no-diff") {
+                ctx.violation(&format!("C17|xfr-server-ixfr|{kind}|{}", order_class(start, server)), &what, case());
+            } else {
+                ctx.violation(&format!("C17|xfr-server-ixfr|{kind}|server-{server_is}|{}", order_class(client, server)), &format!("{what} [client serial {client}, server serial {server}]"), case());
+            }
+            return;
+        }
+        Ok(Ok(m)) => m,
+    };
+    // read the response with the independent reader
+    let mut answer: Vec<(u16, Option<u32>)> = Vec::new();
+    let mut bad: Option<String> = None;
+    for m in &msgs {
+        match mc::wire::read_message(m) {
+            Ok(raw) => {
+                if raw.flags & 0x000F != 0 {
+                    bad = Some(format!("error-response-rcode-{}", raw.flags & 0x000F));
+                }
+                for rec in &raw.sections[0] {
+                    answer.push((rec.rtype, if rec.rtype == 6 { soa_serial_of(&rec.rdata) } else { None }));
+                }
+            }
+            Err(_) => bad = Some("unreadable-message".into()),
+        }
+    }
+    let is_server_soa = |x: Option<&(u16, Option<u32>)>| x == Some(&(6u16, Some(server)));
+    let lone_soa = answer.len() == 1 && is_server_soa(answer.first());
+    let framed = answer.len() >= 3 && is_server_soa(answer.first()) && is_server_soa(answer.last());
+    let incremental = framed && answer[1].0 == 6;
+    let observed = match &bad {
+        Some(b) => b.clone(),
+        None if lone_soa => "single-soa".into(),
+        None if incremental => "difference-sequences".into(),
+        None if framed => "entire-zone".into(),
+        None => "neither-a-single-soa-nor-a-transfer-framed-by-the-server-soa".into(),
+    };
+    let ok = bad.is_none()
+        && match want {
+            // the client has nothing to fetch: the single SOA (or, where a server cannot tell, the entire zone), never differences
+            Some(false) => lone_soa || (framed && !incremental),
+            Some(true) => framed,
+            None => lone_soa || framed,
+        };
+    if !ok {
+        ctx.violation(
+            &format!("C17|xfr-server-ixfr|server-{server_is}|answered-with-{observed}|{}", order_class(client, server)),
+            &format!(
+                "IXFR request with serial {client} to a server at serial {server} holding the difference {start} -> {server} (RFC 1982: server newer = {want:?}) over {}: {} message(s), answer records (type, SOA serial) {:?}",
+                if udp { "UDP" } else { "TCP" },
+                msgs.len(),
+                answer
+            ),
+            case(),
+        );
     }
 }
 
@@ -1204,7 +1213,7 @@ fn main() {
             "rule": "pairs (base, c) for every c in 0..2^32 per base; every pair is distinct by construction; non-trivial = c != base (counted per chunk)",
             "exhaustive": true,
             "bases": bases,
-            "use_sites": {"zone_diff_direction_cases": diff_cases, "signature_time_text_cases": text_cases, "ixfr_chains": ixfr_cases, "commit_bumps": bump_cases, "stream_client_lone_soa_cases": client_cases, "xfr_server_ixfr_cases": server_cases, "signer_validity_periods": signer_cases, "new_base_serial_pairs": new_api_cases, "cookie_windows": cookie_cases, "serial_pair_menu": {"pairs": serial_pairs(!ctx.quick()).len(), "rule": "(first, first + d) for first on both sides of 0, 2^31 and 2^32 (12 values; thorough: 20) and d in {0, 1, 2, 2^12, 2^30, 2^31-2, 2^31-1, 2^31, 2^31+1, 2^31+2, 3*2^30, 2^32-2^12, 2^32-2, 2^32-1}"}, "decision_sites_rule": "every decision site is judged by the RFC 1982 reference of the harness over the serial pair menu. stream client (net::client::stream, RequestMessageMulti IXFR with the first serial in the authority SOA, mock peer on an in-memory connection under tokio's paused clock, response timeout 2 s): the peer at the second serial answers with a first message holding only its SOA, followed - unless it has nothing newer - by the difference sequence (one record per message or all in one, later messages with or without the question) and keeps the connection open; server newer: all messages are delivered, then the end of the response; not newer (equal or older): the one message, then the end, no waiting (a failure or no end within 60 s of virtual time is a violation); 2^31 apart: either. XFR sender (XfrMiddlewareSvc over TCP and UDP, provider handing out the zone and the one difference it keeps, history_from -> server serial): client same or newer: a single SOA of the server's serial (or the entire zone), never difference sequences; client older: a transfer of at least 3 records framed by the server's SOA; 2^31 apart: either; responses read by the independent wire reader. signer (sign_rrset, Ed25519 test key): first = inception, second = expiration: expiration not older than inception: signed, RRSIG carries both times as given; older: refused; 2^31 apart: either. new::base::Serial (the serial type of the new base): partial_cmp both ways, <,>,<=,>=,==, inc(c) value and strictly-greater, for 14 bases x (every multiple of 65537 and +-4 around 0, 2^30, 2^31, 3*2^30), c taken both as absolute value and as distance from the base; inc() of a negative amount panics; in the thorough tier it rides along with the full sweep. cookie window (new::edns::Cookie::verify with an explicit Range of serials; the cookie is made for the second value of the pair by base::opt::cookie, the window starts at the first value and is 1 s, 300 s, 3900 s, 2^30 s or 2^31-1 s long): accepted iff the start is not newer than the timestamp and the end is newer (skipped where one of the two comparisons is undefined); control: every cookie is accepted for the window [t, t+1). Not driven: net::server::middleware::cookies (reads the wall clock, no hook; at today's wall-clock value no pair distinguishes serial from plain integer comparison), the validator's signature-time checks (driven by C14 over its wrap clocks), zonetree's internal Version counter (starts at 0, +1 per commit)", "rule": "IXFR: for 12 start serials on both sides of 0, 2^31 and 2^32 x 6 chains of 1-3 difference sequences (steps 1, 2, 2^31-16, 2^31-1) the response is built, interpreted by XfrResponseInterpreter (batches reported with the serials sent) and applied by ZoneUpdater to a zone at the first serial (ends at the last version); commit(true): 4 successive serial-bumping commits from each start serial publish the RFC 1982 successor each time; zone diffs: InMemoryZoneDiffBuilder::build for start = base, end = base + d over 14 bases x a dense offset grid (every multiple of 65537 and +-2 around 0, 2^31, 2^32): a diff is made iff end is newer than start by RFC 1982 (2^31 apart: either), with start/end serials as given; signature times in text: every calendar day 1970-01-01..2500-12-31 at 00:00:00 and 23:59:59, every second +-3 around k*2^31 (k = 1..8), Jan 1/Dec 31 of years 1971..9998 step 97, all month x day combinations of a leap and a non-leap year, hour/minute/second edge values, and integer forms at the u32 boundaries, through Timestamp::from_str and Timestamp::scan: value == seconds since the epoch mod 2^32 (own civil-date arithmetic), invalid dates rejected, integers above 2^32-1 rejected; Timestamp::to_system_time for references in the first two 2^32-second eras for all 2^32 timestamps"},
+            "use_sites": {"zone_diff_direction_cases": diff_cases, "signature_time_text_cases": text_cases, "ixfr_chains": ixfr_cases, "commit_bumps": bump_cases, "stream_client_lone_soa_cases": client_cases, "xfr_server_ixfr_cases": server_cases, "signer_validity_periods": signer_cases, "new_base_serial_pairs": new_api_cases, "cookie_windows": cookie_cases, "serial_pair_menu": {"pairs": serial_pairs(!ctx.quick()).len(), "rule": "(first, first + d) for first on both sides of 0, 2^31 and 2^32 (12 values; thorough: 20) and d in {0, 1, 2, 2^12, 2^30, 2^31-2, 2^31-1, 2^31, 2^31+1, 2^31+2, 3*2^30, 2^32-2^12, 2^32-2, 2^32-1}"}, "decision_sites_rule": "every decision site is judged by the RFC 1982 reference of the harness over the serial pair menu. stream client (net::client::stream, RequestMessageMulti IXFR with the first serial in the authority SOA, mock peer on an in-memory connection under tokio's paused clock): the peer at the second serial answers with a first message holding only its SOA, followed - unless it has nothing newer - by the difference sequence (one record per message or all in one, later messages with or without the question) and keeps the connection open; server newer: all messages are delivered, then the end of the response; not newer (equal or older): the one message, then the end, no waiting (a failure, or no end within 5 s of virtual time - the peer's messages arrive without time passing - is a violation); 2^31 apart: either. XFR sender (XfrMiddlewareSvc over TCP and UDP, provider handing out the zone and the one difference it keeps, history_from -> server serial): client same or newer: a single SOA of the server's serial (or the entire zone), never difference sequences; client older: a transfer of at least 3 records framed by the server's SOA; 2^31 apart: either; responses read by the independent wire reader. signer (sign_rrset, Ed25519 test key): first = inception, second = expiration: expiration not older than inception: signed, RRSIG carries both times as given; older: refused; 2^31 apart: either. new::base::Serial (the serial type of the new base): partial_cmp both ways, <,>,<=,>=,==, inc(c) value and strictly-greater, for 14 bases x (every multiple of 65537 and +-4 around 0, 2^30, 2^31, 3*2^30), c taken both as absolute value and as distance from the base; inc() of a negative amount panics; in the thorough tier it rides along with the full sweep. cookie window (new::edns::Cookie::verify with an explicit Range of serials; the cookie is made for the second value of the pair by base::opt::cookie, the window starts at the first value and is 1 s, 300 s, 3900 s, 2^30 s or 2^31-1 s long): accepted iff the start is not newer than the timestamp and the end is newer (skipped where one of the two comparisons is undefined); control: every cookie is accepted for the window [t, t+1). Not driven: net::server::middleware::cookies (reads the wall clock, no hook; at today's wall-clock value no pair distinguishes serial from plain integer comparison), the validator's signature-time checks (driven by C14 over its wrap clocks), zonetree's internal Version counter (starts at 0, +1 per commit)", "rule": "IXFR: for 12 start serials on both sides of 0, 2^31 and 2^32 x 6 chains of 1-3 difference sequences (steps 1, 2, 2^31-16, 2^31-1) the response is built, interpreted by XfrResponseInterpreter (batches reported with the serials sent) and applied by ZoneUpdater to a zone at the first serial (ends at the last version); commit(true): 4 successive serial-bumping commits from each start serial publish the RFC 1982 successor each time; zone diffs: InMemoryZoneDiffBuilder::build for start = base, end = base + d over 14 bases x a dense offset grid (every multiple of 65537 and +-2 around 0, 2^31, 2^32): a diff is made iff end is newer than start by RFC 1982 (2^31 apart: either), with start/end serials as given; signature times in text: every calendar day 1970-01-01..2500-12-31 at 00:00:00 and 23:59:59, every second +-3 around k*2^31 (k = 1..8), Jan 1/Dec 31 of years 1971..9998 step 97, all month x day combinations of a leap and a non-leap year, hour/minute/second edge values, and integer forms at the u32 boundaries, through Timestamp::from_str and Timestamp::scan: value == seconds since the epoch mod 2^32 (own civil-date arithmetic), invalid dates rejected, integers above 2^32-1 rejected; Timestamp::to_system_time for references in the first two 2^32-second eras for all 2^32 timestamps"},
             "outcome_counts": {"less": outcomes[0].load(AO::Relaxed), "equal": outcomes[1].load(AO::Relaxed), "greater": outcomes[2].load(AO::Relaxed), "undefined": outcomes[3].load(AO::Relaxed)},
             "samples": stats.samples(),
         }),
